@@ -445,7 +445,8 @@ fn random_index(rng: &mut Rng, d: Dialect, in_table: bool) -> Ix {
         .collect();
     let primary = in_table && rng.chance(1, 3);
     Ix {
-        name: if primary && rng.coin() { None } else { Some(format!("ix{}", rng.below(100))) },
+        // index / constraint names are identifiers like any other
+        name: if primary && rng.coin() { None } else { Some(format!("ix{}{}", rng.below(100), if rng.chance(1, 6) { *rng.pick(&["\"", "`", " x", "'"]) } else { "" })) },
         unique: if primary { false } else if in_table && d == Dialect::Postgres { true } else { rng.coin() },
         primary,
         cols,
